@@ -731,7 +731,11 @@ class AbsEval(ConstEval):
             raise AbsRaise(cls)
         if isinstance(s, ast.Assert):
             if not self.truth(self.eval(s.test, env, mod)):
-                raise AbsRaise("AssertionError")
+                if self.__dict__.get("assert_failures_are_real"):
+                    raise AbsRaise("AssertionError")
+                # the interpreter's objects are abstractions (cloned tables, symbolic registers): an `assert` that does not hold on them is not a proof that it
+                # fails in the program - the evaluation stops undecided instead of reporting an AssertionError of its own making
+                raise NotConstant(f"assert {ast.unparse(s.test)[:80]} is not established on the abstract values")
             return
         if isinstance(s, ast.Try):
             import builtins as _bi
